@@ -2,21 +2,22 @@
 # usage: harness/seedverify.sh <worktree> <patch> <demo.py>
 # confirms in the scratch worktree: the 56 baseline tests still pass with the change, the demo fails with it and passes without
 wt="$1"; patch="$2"; demo="$3"
+T=$(mktemp -d /tmp/sv.XXXXXX)   # per run, so that several confirmations can run side by side
 cd "$wt" || exit 2
 git checkout -q -- . ; cp "$demo" "$wt/_demo.py"
-PYTHONPATH="$wt" /venv/bin/python _demo.py >/tmp/sv_clean.txt 2>&1; clean=$?
+PYTHONPATH="$wt" /venv/bin/python _demo.py >$T/clean.txt 2>&1; clean=$?
 git apply "$patch" || { echo "patch does not apply"; exit 2; }
-PYTHONPATH="$wt" /venv/bin/python _demo.py >/tmp/sv_mut.txt 2>&1; mut=$?
-PYTHONPATH="$wt" /venv/bin/python -m pytest -q -p no:cacheprovider --timeout=900 --continue-on-collection-errors --junitxml=/tmp/sv_j.xml >/dev/null 2>&1
-pass=$(/venv/bin/python - <<'PY'
+PYTHONPATH="$wt" /venv/bin/python _demo.py >$T/mut.txt 2>&1; mut=$?
+PYTHONPATH="$wt" /venv/bin/python -m pytest -q -p no:cacheprovider --timeout=900 --continue-on-collection-errors --junitxml=$T/j.xml >/dev/null 2>&1
+pass=$(SVJ=$T/j.xml /venv/bin/python - <<'PY'
 import json, xml.etree.ElementTree as ET
 b=json.load(open('/root/.vp/BASELINE.json'))
 ok=set()
-for tc in ET.parse('/tmp/sv_j.xml').iter('testcase'):
+for tc in ET.parse(__import__('os').environ['SVJ']).iter('testcase'):
     if not any(c.tag in('failure','error','skipped') for c in tc):
         ok.add(tc.get('classname')+'::'+tc.get('name'))
 print("baseline-ok" if set(b['stable_pass'])<=ok else "baseline-BROKEN:%s" % sorted(set(b['stable_pass'])-ok)[:3])
 PY
 )
-git checkout -q -- . ; rm -f "$wt/_demo.py" /tmp/sv_j.xml
+git checkout -q -- . ; rm -f "$wt/_demo.py"; rm -rf "$T"
 echo "demo clean rc=$clean, mutated rc=$mut, tests: $pass"
